@@ -226,6 +226,29 @@ def lookup_history(s: str, k1: int, k2: int) -> bool:
     return a._schema_entry is b._schema_entry and a._schema_entry is c._schema_entry
 
 
+def prefix_letter_overlap(s: str) -> bool:
+    """
+    pre: 1 <= len(s) <= R.N(2)
+    pre: _cell(s)
+    pre: R.ascii_printable(s)
+    pre: ":" not in s
+    pre: not R.known("C03-hash-term", _kf_hash_term(s, [""]))
+    post: _
+    """
+    # the namespace prefix is removed as a PREFIX: with the library loaded as "a:" the spelling "a:" + s is the
+    # node that s alone names (also when s itself begins with the prefix's letters: a:a, a:a/b, a:A/x)
+    from vp import mini as _mini
+    text = "a:" + s
+    t = HedTag(text, _mini.GROUP_A)
+    p, n, r = MR.resolve_ns(text, ["", "a:"])
+    if n is None:
+        return t._schema_entry is None
+    if t._schema_entry is None or t._schema_entry is not _mini.MINI_A.tags.get(t._schema_entry.name):
+        return False
+    return (t.long_tag == MR.long_form(n, r, "a:") and t.short_tag == MR.short_form(n, r, "a:")
+            and t._extension_value == r)
+
+
 def _ns_k(k):
     c = R.env_int("VP_K")
     return 0 <= k <= 1 and (c is None or k == c)
@@ -353,6 +376,16 @@ HARNESSES = [
              "unidentified), with the remainder transformed the same way and the same base forms",
         oracle="three further runs of the real code on case variants",
         stubs=_STUBS + ["chx_case: ASCII-exact upper()/swapcase() model for CrossHair strings"], outside=_OUT),
+    R.H("prefix_letter_overlap", _T_FIND + _T_TAG + _T_GROUP,
+        quick=R.tier(cells=_cells(3, 3, minlen=1), env={"VP_N": 3}, timeout=600,
+                     bound="text 'a:' + s on HedSchemaGroup([MINI, MINI with prefix 'a:']), every printable-ASCII s "
+                           "without ':' and 1 <= len(s) <= 3"),
+        thorough=R.tier(cells=_cells(4, 3, minlen=1), env={"VP_N": 4}, timeout=1800, path_timeout=60,
+                        bound="same with len(s) <= 4"),
+        what="a spelling carrying a prefix whose letters also begin the tag (a:a, a:a/b, a:A/x) resolves to the node "
+             "the unprefixed spelling names, in the prefixed schema, with prefixed canonical forms and verbatim suffix",
+        oracle="models/mini_rules.py resolve_ns", stubs=["mini schema loaded a third time under the prefix 'a:'"],
+        outside="other prefixes; bundled libraries"),
     R.H("lookup_history", _T_FIND + _T_TAG,
         quick=R.tier(cells=R.product_cells(_cells(3, 3, minlen=1), R.int_cells("VP_K", 0, 3)), env={"VP_N": 3},
                      timeout=600, bound=(_MINI_B % 3) + "; three lookups on one private schema copy: the text as "
